@@ -1,7 +1,8 @@
 /-
   C08 — calendar-instant arithmetic (`echs_instant_fixup`, `_diff`, `_add`, the ordering
   predicates, and the epoch conversions) agrees with the calendar specification
-  `Echse.Spec.Cal` on normal instants of the years 1901..2099.
+  `Echse.Spec.Cal` on normal instants of the years 1901..2099; the daemon's `instant_to_tstamp`
+  (section 7) on every year.
   Statements only; helper lemmas live in Echse/Lemmas/Instant*.lean.
 -/
 import Echse.Lemmas.Instant
@@ -302,30 +303,73 @@ theorem epoch_roundtrip' (t : Nat) (h : t < 4102444800) : instToEpoch (epochToIn
   have e := toEpoch_spec _ (Or.inl n) y1 y2
   omega
 
-/-- the daemon's timestamp of a timed instant is its epoch time … -/
-theorem tstamp_spec (i : Inst) (h : NormalSec i ∨ Normal i) (hy1 : 2001 ≤ i.y) (hy2 : i.y ≤ 2099) :
-    instToTstamp i = instToEpoch i := by
-  have : ValidDate i ∧ i.H < 24 ∧ i.M < 60 ∧ i.S < 60 := by
-    rcases h with ⟨a, b, c, d, _⟩ | ⟨a, b, c, d, _⟩ <;> exact ⟨a, b, c, d⟩
-  obtain ⟨a, b, c, d⟩ := this
-  have e := instToEpoch_eq i a (by omega) hy2 b c d
-  obtain ⟨nd, k, r⟩ := instToTstamp_nd i a hy1 hy2
-  have hA : i.isAllDay = false := by simp [Inst.isAllDay, allDay]; omega
-  rw [hA] at r
-  simp only [Bool.false_eq_true, if_false] at r
-  rw [epochDays_eq] at e
+/-! ### 7. the daemon's timestamp (`instant_to_tstamp`, signed, every year)
+
+`days` is the proleptic Gregorian day number for every year `y : Nat` (floor division on `Int`), so
+these statements carry no year hypothesis at all: before 2001, before 1970 (negative results) and
+from 2100 on alike. -/
+
+/-- the general form: only the month has to be a month; the other fields are counted on linearly. -/
+theorem tstamp_spec_general (i : Inst) (h1 : 1 ≤ i.m) (h2 : i.m ≤ 12) :
+    instToTstamp i = (days i.y i.m i.d - epochDays) * 86400 +
+      (if i.H = allDay then 0 else (i.H : Int) * 3600 + (i.M : Int) * 60 + i.S) := by
+  rw [instToTstamp_eq i h1 h2]
+  by_cases c : i.H = allDay
+  · simp [Inst.isAllDay, c]
+  · simp only [Inst.isAllDay, beq_iff_eq, c, if_false]; omega
+
+/-- the timestamp of an all-day instant is the epoch time of its midnight (UTC), for every date. -/
+theorem tstamp_spec_day (i : Inst) (h : NormalDay i) :
+    instToTstamp i = (days i.y i.m i.d - epochDays) * 86400 := by
+  obtain ⟨⟨a1, a2, -, -⟩, b⟩ := h
+  rw [tstamp_spec_general i a1 a2, if_pos b]; omega
+
+/-- the timestamp of a timed instant is the number of seconds since 1970-01-01T00:00 (negative
+before), for every date. -/
+theorem tstamp_spec_timed (i : Inst) (h : ValidDate i) (hH : i.H ≠ allDay) :
+    instToTstamp i = (days i.y i.m i.d - epochDays) * 86400 + (i.H : Int) * 3600 + (i.M : Int) * 60 + i.S := by
+  obtain ⟨a1, a2, -, -⟩ := h
+  rw [tstamp_spec_general i a1 a2, if_neg hH]; omega
+
+/-- the same against `absSec` -/
+theorem tstamp_spec_sec (i : Inst) (h : NormalSec i ∨ Normal i) :
+    instToTstamp i = absSec i - epochDays * 86400 := by
+  have : ValidDate i ∧ i.H < 24 := by
+    rcases h with ⟨a, b, _⟩ | ⟨a, b, _⟩ <;> exact ⟨a, b⟩
+  obtain ⟨a, b⟩ := this
+  rw [tstamp_spec_timed i a (by unfold allDay; omega)]
+  simp only [absSec]; omega
+
+/-- where the library's conversion `__inst_to_epoch` (unsigned, every-4th-year rule) is right,
+1970..2099, the two agree. -/
+theorem tstamp_spec (i : Inst) (h : NormalSec i ∨ Normal i) (hy1 : 1970 ≤ i.y) (hy2 : i.y ≤ 2099) :
+    instToTstamp i = (instToEpoch i : Int) := by
+  rw [tstamp_spec_sec i h, toEpoch_spec i h hy1 hy2]
+
+/-- the timestamp is monotone in the point in time … -/
+theorem tstamp_mono (x y : Inst) (hx : Normal x) (hy : Normal y) (h : absMs x ≤ absMs y) :
+    instToTstamp x ≤ instToTstamp y := by
+  rw [tstamp_spec_sec x (Or.inr hx), tstamp_spec_sec y (Or.inr hy)]
+  obtain ⟨-, -, -, -, a⟩ := hx
+  obtain ⟨-, -, -, -, b⟩ := hy
+  simp only [absMs, absSec, msPerDay] at *
   omega
 
-/-- … and of an all-day instant the epoch time of its midnight (UTC). -/
-theorem tstamp_spec_day (i : Inst) (h : NormalDay i) (hy1 : 2001 ≤ i.y) (hy2 : i.y ≤ 2099) :
-    (instToTstamp i : Int) = (days i.y i.m i.d - epochDays) * 86400 := by
-  obtain ⟨a, b⟩ := h
-  obtain ⟨nd, k, r⟩ := instToTstamp_nd i a hy1 hy2
-  have hA : i.isAllDay = true := by simp [Inst.isAllDay, b]
-  rw [hA] at r
-  simp only [if_true] at r
-  rw [epochDays_eq]
-  omega
+/-- … hence in the calendar order `ltP` of the C code -/
+theorem tstamp_mono_ltP (x y : Inst) (hx : Normal x) (hy : Normal y) (hxy : x.y < 65536) (hyy : y.y < 65536)
+    (h : ltP x y = true) : instToTstamp x ≤ instToTstamp y := by
+  rw [ltP_absMs x y hx hy hxy hyy, decide_eq_true_eq] at h
+  exact tstamp_mono x y hx hy (Int.le_of_lt h)
+
+/-- at second resolution strictly so, and the timestamp determines the instant -/
+theorem tstamp_lt_iff (x y : Inst) (hx : NormalSec x) (hy : NormalSec y) :
+    instToTstamp x < instToTstamp y ↔ absSec x < absSec y := by
+  rw [tstamp_spec_sec x (Or.inl hx), tstamp_spec_sec y (Or.inl hy)]; omega
+
+theorem tstamp_injective (x y : Inst) (hx : NormalSec x) (hy : NormalSec y)
+    (h : instToTstamp x = instToTstamp y) : x = y := by
+  rw [tstamp_spec_sec x (Or.inl hx), tstamp_spec_sec y (Or.inl hy)] at h
+  exact absSec_inj x y hx hy (by omega)
 
 /-! ### the hypotheses are inhabited by non-trivial data (leap day, year end, range ends) -/
 
@@ -349,5 +393,15 @@ example : instToEpoch ⟨2000,2,29,12,0,0,1023⟩ = 951825600 := by decide
 example : epochToInst 951825600 = ⟨2000,2,29,12,0,0,1023⟩ := by decide
 example : epochToInst 4102444799 = ⟨2099,12,31,23,59,59,1023⟩ := by decide
 example : instToTstamp ⟨2020,1,1,255,0,0,0⟩ = 1577836800 := by decide
+example : instToTstamp ⟨1997,9,2,9,0,0,1023⟩ = 873190800 := by decide      -- before 2001
+example : instToTstamp ⟨1969,12,31,23,59,59,1023⟩ = -1 := by decide
+example : instToTstamp ⟨1960,2,29,255,0,0,0⟩ = -310521600 := by decide       -- before 1970
+example : instToTstamp ⟨1900,2,28,255,0,0,0⟩ + 86400 = instToTstamp ⟨1900,3,1,255,0,0,0⟩ := by decide
+example : instToTstamp ⟨2000,2,29,255,0,0,0⟩ = 951782400 := by decide
+example : instToTstamp ⟨2000,2,29,12,0,0,1023⟩ = 951825600 := by decide
+example : instToTstamp ⟨2100,2,28,255,0,0,0⟩ + 86400 = instToTstamp ⟨2100,3,1,255,0,0,0⟩ := by decide
+example : instToTstamp ⟨2100,3,1,255,0,0,0⟩ = 4107542400 := by decide        -- no 2100-02-29
+example : instToTstamp ⟨2400,2,29,255,0,0,0⟩ = 13574563200 := by decide
+example : NormalDay ⟨1960,2,29,255,0,0,0⟩ ∧ NormalSec ⟨1997,9,2,9,0,0,1023⟩ ∧ NormalDay ⟨2100,3,1,255,0,0,0⟩ := by decide
 
 end C08
